@@ -151,8 +151,8 @@ def rule_words(ctx, m):
 
 def run(ctx):
     m = ctx.pattern()
-    from rules.common import rule_narrow_units, rule_finder_all_words
-    rules = [rule_patterns(ctx, m), rule_words(ctx, m),
+    from rules.common import rule_narrow_units, rule_finder_all_words, rule_copy_kind
+    rules = [rule_patterns(ctx, m), rule_words(ctx, m), rule_copy_kind(ctx, m),
              rule_narrow_units(ctx, m, ["Template.hpp", "Finder.hpp", "Tags.hpp", "StringUtils.hpp", "Value.hpp"]),
              rule_finder_all_words(ctx, m)]
 
